@@ -28,6 +28,12 @@ pub const QEN: Shape = Shape {
     limit_mask: 3, limit_max: 3, dl_mask: 3, b_mask: 0,
 };
 
+/// the second task never arrives: busy windows of length 1 become possible
+pub const QS: Shape = Shape {
+    n_tua: 2, n_others: 1, n_oth: 0, inc_mask: 3, cost_mask: 1,
+    limit_mask: 3, limit_max: 4, dl_mask: 3, b_mask: 1,
+};
+
 pub fn fp_body(s: &mut crate::Src, kind: Kind, sh: &Shape) {
     let sc = any_scenario(s, sh);
     let got = call_fp(kind, &sc);
@@ -69,6 +75,8 @@ harness!(c06_edf_np_q, 5, |s| { edf_body(s, Kind::NonPreemptive, &QE); });
 harness!(c06_edf_lp_q, 5, |s| { edf_body(s, Kind::Limited, &QE); });
 harness!(c06_edf_fl_q, 5, |s| { edf_body(s, Kind::Floating, &QE); });
 harness!(c06_fifo_q, 6, |s| { fifo_body(s, &Q); });
+harness!(c06_fifo_single_q, 6, |s| { fifo_body(s, &QS); });
+harness!(c06_fp_np_single_q, 6, |s| { fp_body(s, Kind::NonPreemptive, &QS); });
 
 harness!(c06_fp_p_t, 8, |s| { fp_body(s, Kind::Preemptive, &T); });
 harness!(c06_fp_np_t, 8, |s| { fp_body(s, Kind::NonPreemptive, &T); });
@@ -84,7 +92,7 @@ harness!(c06_edf_np_never_t, 5, |s| { edf_body(s, Kind::NonPreemptive, &QEN); })
 pub fn register(t: &mut Table) {
     reg!(t;
         c06_fp_p_q, c06_fp_np_q, c06_fp_lp_q, c06_fp_fl_q,
-        c06_edf_p_q, c06_edf_np_q, c06_edf_lp_q, c06_edf_fl_q, c06_fifo_q,
+        c06_edf_p_q, c06_edf_np_q, c06_edf_lp_q, c06_edf_fl_q, c06_fifo_q, c06_fifo_single_q, c06_fp_np_single_q,
         c06_fp_p_t, c06_fp_np_t, c06_fp_lp_t, c06_fp_fl_t,
         c06_edf_p_t, c06_edf_np_t, c06_edf_lp_t, c06_edf_fl_t, c06_fifo_t, c06_edf_np_never_t,
     );
